@@ -17,7 +17,12 @@ clause → theorem
 * success ⇒ magic, total = 48+q+b, frame inside buffer, slices .. `C02.parse_sound`
 * exact variants reject trailing bytes ......................... `C02.exact_rejects_trailing`, `C02.exact_sound`
 * (converse) a consistent frame does parse ..................... `C02.parse_complete`, `C02.read_complete`
-* truncation at every position ⇒ error ......................... `C02.read_truncated`
+* truncation at every position ⇒ error ......................... `C02.read_truncated`, `C02.read_into_truncated`
+* stream readers: success ⇒ whole consistent frame, exact bytes . `C02.read_sound`, `C02.read_into_sound`
+* (converse, into-readers; pipelined with a reused buffer) ...... `C02.read_into_complete`, `C02.read_pipelined`
+* blocking and async readers are the same function ............. `C02.reader_twins_agree`
+* the checks the model performs are the checks in the source .... `C02.parser_checks`, `C02.reader_shapes`
+* one-message-per-buffer entry points use the exact parsers ..... `C02.entry_points_exact`
 
 `Outcome` has explicit `panic` and `abort` constructors (integer overflow with overflow-checks on,
 slice index out of range, `vec![0; n]` capacity overflow, allocation failure), so "never crashes" is
@@ -109,6 +114,86 @@ theorem read_complete (mode : OvMode) (m : Message) (wf : m.WF) (rest : Bytes)
 theorem read_truncated (mode : OvMode) (m : Message) (wf : m.WF) (n : Nat) (hn : n < m.toVec.length) :
     readMessage Gen.headerSumForm Gen.readAlloc mode (m.toVec.take n) = .err .io := by
   rw [source_forms.2.1]; exact readMessage_truncated _ mode m wf n hn
+
+/-! ### coverage-audit pass -/
+
+/-- The checks of `Header::decode`, `Message::from_slice(_exact)` and `MessageView::from_slice(_exact)`, in
+source order and in a recognised form (comparison, error variant), are exactly the checks of the model;
+the slices returned are cut at the model's offsets; `Message::new` compares both lengths. A check the
+extractor does not recognise (a weakened magic test, an extra disjunct, a signed comparison) is extracted
+as `.unknown`, a different slicing as `false`. -/
+theorem parser_checks :
+    Gen.decodeChecks = Header.decodeChecks ∧ Gen.decodeReturnsParsed = true ∧
+    Gen.sliceChecks = Message.fromSliceChecks ∧ Gen.viewChecks = Message.fromSliceChecks ∧
+    Gen.sliceExactChecks = Message.fromSliceExactChecks ∧ Gen.viewExactChecks = Message.fromSliceExactChecks ∧
+    Gen.sliceBoundsExact = true ∧ Gen.viewBoundsExact = true ∧ Gen.messageNewShape = true := by decide
+
+/-- The four stream readers and the `read_exact` helper (EOF before the buffer is full is an error) have,
+statement by statement, the shape the model transcribes. -/
+theorem reader_shapes :
+    Gen.readShape = true ∧ Gen.asyncReadShape = true ∧ Gen.readIntoShape = true ∧
+    Gen.asyncReadIntoShape = true ∧ Gen.readExactShape = true := by decide
+
+/-- Entry points that receive one whole transport message per buffer (WebSocket server reader and proxy,
+WebSocket client) parse it with the exact-length variants. -/
+theorem entry_points_exact : Gen.wsServerParser = .exact ∧ Gen.wsClientParser = .exact := by decide
+
+/-- Blocking and async readers are the same function of the stream. -/
+theorem reader_twins_agree (mode : OvMode) (s : Bytes) :
+    readMessage Gen.headerSumForm Gen.readAlloc mode s = readMessage Gen.headerSumForm Gen.asyncReadAlloc mode s ∧
+    readMessageInto Gen.headerSumForm Gen.readIntoSumForm Gen.readIntoAlloc mode s =
+      readMessageInto Gen.headerSumForm Gen.asyncReadIntoSumForm Gen.asyncReadIntoAlloc mode s := by
+  have h1 : Gen.readAlloc = Gen.asyncReadAlloc := by decide
+  have h2 : Gen.readIntoAlloc = Gen.asyncReadIntoAlloc := by decide
+  have h3 : Gen.readIntoSumForm = Gen.asyncReadIntoSumForm := by decide
+  rw [h1, h2, h3]; exact ⟨rfl, rfl⟩
+
+/-- A stream read succeeds only on a stream that starts with a whole consistent frame, and returns exactly
+those stream bytes (all four readers, any declared sizes). -/
+theorem read_sound (mode : OvMode) (s : Bytes) (m : Message)
+    (h : readMessage Gen.headerSumForm Gen.readAlloc mode s = .ok m ∨
+         readMessage Gen.headerSumForm Gen.asyncReadAlloc mode s = .ok m) :
+    m.WF ∧ ∃ rest, s = m.toVec ++ rest := by
+  rw [source_forms.1] at h
+  rcases h with h | h <;> exact readMessage_sound _ mode s m h
+
+theorem read_into_sound (mode : OvMode) (s f : Bytes)
+    (h : readMessageInto Gen.headerSumForm Gen.readIntoSumForm Gen.readIntoAlloc mode s = .ok f ∨
+         readMessageInto Gen.headerSumForm Gen.asyncReadIntoSumForm Gen.asyncReadIntoAlloc mode s = .ok f) :
+    ∃ m : Message, m.WF ∧ f = m.toVec ∧ ∃ rest, s = f ++ rest := by
+  rw [source_forms.1] at h
+  rcases h with h | h <;> exact readMessageInto_sound _ _ mode s f h
+
+/-- non-vacuity of `read_sound` / `read_into_sound`: a 48-byte consistent header is read by both kinds -/
+def okHeader : Bytes :=
+  leBytes 8 48 ++ leBytes 2 0x1507 ++ leBytes 1 1 ++ leBytes 1 0 ++ leBytes 4 0 ++ leBytes 8 9 ++
+  leBytes 8 0 ++ leBytes 8 0 ++ leBytes 2 0 ++ leBytes 2 0 ++ leBytes 4 0
+example : (readMessage Gen.headerSumForm Gen.readAlloc .checks okHeader).map Message.toVec = .ok okHeader := by decide
+example : readMessageInto Gen.headerSumForm Gen.readIntoSumForm Gen.readIntoAlloc .wraps okHeader = .ok okHeader := by
+  decide
+
+theorem read_into_complete (mode : OvMode) (m : Message) (wf : m.WF) (rest : Bytes)
+    (hsz : 48 + m.query.length + m.body.length < 2^62) :
+    readMessageInto Gen.headerSumForm Gen.readIntoSumForm Gen.readIntoAlloc mode (m.toVec ++ rest) = .ok m.toVec ∧
+    readMessageInto Gen.headerSumForm Gen.asyncReadIntoSumForm Gen.asyncReadIntoAlloc mode (m.toVec ++ rest) = .ok m.toVec := by
+  rw [source_forms.2.2.1, source_forms.2.2.2.2]
+  exact ⟨readMessageInto_complete _ _ mode m wf rest hsz, readMessageInto_complete _ _ mode m wf rest hsz⟩
+
+theorem read_into_truncated (mode : OvMode) (m : Message) (wf : m.WF) (n : Nat) (hn : n < m.toVec.length) :
+    readMessageInto Gen.headerSumForm Gen.readIntoSumForm Gen.readIntoAlloc mode (m.toVec.take n) = .err .io ∧
+    readMessageInto Gen.headerSumForm Gen.asyncReadIntoSumForm Gen.asyncReadIntoAlloc mode (m.toVec.take n) = .err .io := by
+  rw [source_forms.2.2.1, source_forms.2.2.2.2]
+  exact ⟨readMessageInto_truncated _ _ mode m wf n hn, readMessageInto_truncated _ _ mode m wf n hn⟩
+
+/-- Pipelined frames read with one reader: every owned reader returns them in order too. -/
+theorem read_pipelined (mode : OvMode) (ms : List Message) (tail : Bytes)
+    (hms : ∀ m ∈ ms, m.WF ∧ m.query.length < 2^62 ∧ m.body.length < 2^62) :
+    readSeq (fun s => (readMessage Gen.headerSumForm Gen.readAlloc mode s).map Message.toVec) ms.length
+      ((ms.map Message.toVec).flatten ++ tail) = (ms.map Message.toVec, tail) := by
+  rw [source_forms.2.1]
+  refine readSeq_frames _ ms tail fun m hm rest => ?_
+  rw [readMessage_complete _ mode m (hms m hm).1 rest (hms m hm).2.1 (hms m hm).2.2]
+  rfl
 
 /-! ### Why the checked / fallible forms are needed: witnesses for the unchecked forms
 (these are the inputs F1 and F2 of DESIGN.md §9). -/
